@@ -897,6 +897,10 @@ func runC07(c *Ctx) {
 	ruleAdmissionBalanced(c, "R07.j")
 	ruleReplyBufferLocal(c, "R07.d")
 	ruleNoConcurrentMapAccess(c, "R07.l")
+	// a registry entry that is never removed counts against any admission limit for ever
+	ruleRegistryBracket(c, "R07.m")
+	// a panic in the example store is confined to the offender only if no lock of the store is held at that point: index safety of the store
+	ruleStoreIndexSafety(c, "R07.n")
 	ruleNilNilDeref(c, "R07.e")
 	ruleNoReentrantLock(c, buildSyncModel(c), "R07.f")
 	ruleNoWriteUnderReadLock(c, "R07.g")
